@@ -96,7 +96,7 @@ func c19MalformedResults(c *Ctx) {
 	}
 	if fn := c.needFn("C19.verify", "consensus/cometbft/full.TransactionResultsFromCometBFT"); fn != nil {
 		var idx []ssa.Instruction
-		for _, b := range fn.Blocks {
+		for _, b := range blocksIP(fn) {
 			for _, in := range b.Instrs {
 				if ia, ok := in.(*ssa.IndexAddr); ok && vstr(ia.X) == "param:txs" {
 					idx = append(idx, in)
@@ -152,7 +152,7 @@ func c20Round3(c *Ctx, ix *Index) {
 	if fn := c.needFn("C20.heap", pk+".(*senderTxHeap).replace"); fn != nil {
 		c.Analysed[fname(fn)] = true
 		var writes, deletes []ssa.Instruction
-		for _, b := range fn.Blocks {
+		for _, b := range blocksIP(fn) {
 			for _, in := range b.Instrs {
 				switch x := in.(type) {
 				case *ssa.MapUpdate:
